@@ -168,13 +168,13 @@ class LtlHorizon(LtlAstVisitor):
 
     def visitNext(self, node, *args, **kwargs):
         op_horizon = self.visit(node.children[0], *args, **kwargs)
-        self.horizons[node] = op_horizon
-        return op_horizon
+        self.horizons[node] = op_horizon + 1
+        return op_horizon + 1
 
     def visitStrongNext(self, node, *args, **kwargs):
         op_horizon = self.visit(node.children[0], *args, **kwargs)
-        self.horizons[node] = op_horizon
-        return op_horizon
+        self.horizons[node] = op_horizon + 1
+        return op_horizon + 1
 
     def visitHistorically(self, node, *args, **kwargs):
         op_horizon = self.visit(node.children[0], *args, **kwargs)
